@@ -320,7 +320,7 @@ def suite_cpp_e2e(seed, tier):
 
 # ------------------------------------------------------------------ regression corpus (fixed defects)
 def suite_cpp_corpus(seed, tier):
-    """the witnesses of the four defects repaired by 'fix:' commits (KNOWN_FINDINGS.txt) run first"""
+    """the witnesses of the three defects (four witnesses) repaired by 'fix:' commits (KNOWN_FINDINGS.txt) run first"""
     import cppkern as ck
     r = Result("cpp-corpus")
     try:
@@ -390,11 +390,11 @@ def replay_c13(payload):
         return [int(v) for v in ck.popcount_2d(X, misalign=m, lib=L)] == [int(v) for v in np.atleast_1d(P._popcount(X))]
     if k == "unpack":
         X = np.array(inp["rows"], dtype=np.uint8)
+        nf = inp["n_features"]
         try:
-            return ck.unpack(X, n_features=inp["n_features"], misalign=m, lib=L).tolist() == \
-                py_unpack(X, inp["n_features"]).tolist()
+            return ck.unpack(X, n_features=nf, misalign=m, lib=L).tolist() == py_unpack(X, nf).tolist()
         except ck.KernelError:
-            return True
+            return not (nf is None or nf >= 0)        # a throw is a violation where the fallback is defined
     if k == "centroid_from_sum":
         a = np.array(inp["linear_sum"], dtype=np.uint64)
         return ck.centroid_from_sum(a, inp["n"], pack=inp["pack"], lib=L).tolist() == \
@@ -408,11 +408,15 @@ def replay_c13(payload):
             [bits(v) for v in P._jt_sim_arr_vec_packed(X, y)]
     if k == "most_dissimilar":
         X = np.array(inp["rows"], dtype=np.uint8)
+        nf = inp["n_features"]
         try:
-            f1, f2, s1, s2 = ck.most_dissimilar(X, n_features=inp["n_features"], misalign=m, lib=L)
+            f1, f2, s1, s2 = ck.most_dissimilar(X, n_features=nf, misalign=m, lib=L)
         except ck.KernelError:
+            return not (nf is None or (nf + 7) // 8 == X.shape[1])
+        try:
+            e1, e2, t1, t2 = P.jt_most_dissimilar_packed(X, nf)
+        except ValueError:
             return True
-        e1, e2, t1, t2 = P.jt_most_dissimilar_packed(X, inp["n_features"])
         return (int(f1), int(f2), [bits(v) for v in s1], [bits(v) for v in s2]) == \
             (int(e1), int(e2), [bits(v) for v in t1], [bits(v) for v in t2])
     return True
